@@ -127,8 +127,13 @@ def handle1 (req : Json) : Except String Json := do
     let fl ← parseCols (← field req "fl")
     let fp ← parseCols (← field req "fp")
     let n ← opt nat (fieldD req "n" Json.null)
-    pure (obj [("model", exc resultToJson (filterBest r lc pc n fl fp)),
-               ("spec", exc resultToJson (whereBestS r lc pc n fl fp)),
+    let ord ← opt (fun j => do (← arr j).mapM (fun (t : Json) => do
+      match t with
+      | .arr #[a, b, c] => pure ((← nat a, ← nat b, ← nat c) : Triple)
+      | _ => throw "bad triple")) (fieldD req "order" Json.null)
+    let lv : List BEnt → List Key := match ord with | none => sortLv | some o => ordLv o
+    pure (obj [("model", exc resultToJson (filterBestW lv r lc pc n fl fp)),
+               ("spec", exc resultToJson (whereBestSW lv r lc pc n fl fp)),
                ("hyp", Json.bool (wf r))])
   | "contrast" =>
     let r ← parseResult (← field req "res")
@@ -140,8 +145,9 @@ def handle1 (req : Json) : Except String Json := do
         let jj ← opt nat (fieldD e "j" Json.null)
         let v ← int (← field e "v")
         pure (tb, jj, v))
-    let sel1 ← parseSel (← field req "sel1")
-    let sel2 ← parseSel (← field req "sel2")
+    let sel1 ← (← arr (← field req "sels1")).mapM parseSel
+    let sel2 ← (← arr (← field req "sels2")).mapM parseSel
+    let strX ← bool (fieldD req "strx" (Json.bool true))
     let pc ← parseCols (← field req "p")
     let x ← parseX (← field req "x")
     let span ← opt nat (fieldD req "span" Json.null)
@@ -149,8 +155,14 @@ def handle1 (req : Json) : Except String Json := do
       ofList (fun (e : (Key × Key) × List (Rat × Rat)) =>
         Json.arr #[ofList ofInt e.1.1, ofList ofInt e.1.2,
           ofList (fun (q : Rat × Rat) => Json.arr #[ratToJson q.1, ratToJson q.2]) e.2]) d
-    pure (obj [("model", exc out (rawContrast r sel1 sel2 pc x span)),
-               ("spec", exc out (rawContrastS r sel1 sel2 pc x span))])
+    pure (obj [("model", exc out (rawContrast r sel1 sel2 pc x span strX)),
+               ("spec", exc out (rawContrastS r sel1 sel2 pc x span strX))])
+  | "complete" =>
+    let r ← parseResult (← field req "res")
+    let lc ← parseCols (← field req "l")
+    let pc ← parseCols (← field req "p")
+    pure (obj [("model", exc Json.bool (pairingComplete r lc pc)),
+               ("lengths", ofList ofNat ((runs r.ints).map (fun g => g.2.length)))])
   | "remove" =>
     let ts ← (← arr (← field req "ts")).mapM (fun j => do
       match j with
